@@ -1150,6 +1150,14 @@ fn c15_print_cases(cases: &[(usize, usize)]) -> Vec<u8> {
         assert!(fd >= 0);
         let _ = std::io::stdout().flush();
         libc::dup2(fd, 1);
+        // byte strings outside the property's domain may make the disassembler panic; whatever they
+        // do, they must not spoil later calls on valid programs (a lock left poisoned, a static left
+        // half-updated)
+        for bad in [&[0xffu8, 0, 0, 0, 0, 0, 0, 0][..], &[0x95, 0, 0, 0, 0, 0, 0][..], &[0x85, 0x20, 0, 0, 1, 0, 0, 0][..], &[0x18, 0, 0, 0, 0, 0, 0, 0][..]] {
+            let _ = catch(|| rbpf::disassembler::disassemble(bad));
+            let _ = catch(|| rbpf::disassembler::to_insn_vec(bad));
+        }
+        let _ = std::io::stdout().flush();
         for (slots, at) in cases {
             let prog = c15_print_program(*slots, *at);
             let bytes = isa::enc(&prog);
@@ -1536,6 +1544,40 @@ pub fn run_c13(s: &mut Sink) {
         s.count("evaluations", n);
         s.count("distinct_nontrivial", n);
     }
+    // (3b) after a refused source: a source whose first instructions are fine and whose k-th is not is
+    // refused; the next source on the same thread must assemble exactly as if nothing had happened
+    {
+        let idx = g;
+        g += 1;
+        if s.take(idx) {
+            let bad_tails = ["nosuchinsn r1", "mov r1", "mov r16, 1", "mov r1, 4294967296", "ldxw r1, [r2+32768]", "jeq r1, 2", "call", "lddw r1", "exit 1", "stw [r1+0]", "xadddw [r1+0], r2, 3"];
+            let good_heads = ["mov r6, 1", "lddw r7, 0x1122334455667788", "ja +1", "exit", "stxdw [r10-8], r1\nadd r2, r3"];
+            let mut n = 0u64;
+            for head in good_heads {
+                for tail in bad_tails {
+                    for m in &mns {
+                        let refused = format!("{head}\n{tail}");
+                        let r = catch(|| rbpf::assembler::assemble(&refused));
+                        if !matches!(r, Ok(Err(_))) {
+                            s.violation("asm/after-refused-source/ok-instead-of-err", format!("assemble({refused:?}) = {:?}", r.map(|x| x.map(|b| hex(&b)))), json!({"kind":"asm","text":refused,"want":null}));
+                            break;
+                        }
+                        let (t, b) = inst(m);
+                        n += 1;
+                        match catch(|| rbpf::assembler::assemble(&t)) {
+                            Ok(Ok(got)) if got == b => {}
+                            other => {
+                                s.violation("asm/after-refused-source/bytes-mismatch", format!("after assemble({refused:?}) was refused, assemble({t:?}) = {:?} want {}", other.map(|x| x.map(|b| hex(&b))), hex(&b)), json!({"kind":"asm-after","refused":refused,"text":t,"want":hex(&b)}));
+                            }
+                        }
+                    }
+                }
+            }
+            s.count("evaluations", n);
+            s.count("distinct_nontrivial", n);
+            s.done("every mnemonic right after a refused multi-instruction source (5 heads x 11 faulty tails)");
+        }
+    }
     if !s.expired() {
         s.done("sequences of 2 (all mnemonic pairs) and 3 (reduced) instructions");
     }
@@ -1657,6 +1699,17 @@ pub fn run_c13(s: &mut Sink) {
         c13_check(s, "", &Some(vec![]), "empty");
         c13_check(s, "  \n ", &Some(vec![]), "empty");
         s.count("evaluations", 2);
+    }
+}
+
+pub fn replay_asm_after(v: &Value) -> Vec<String> {
+    let refused = v["refused"].as_str().unwrap();
+    let text = v["text"].as_str().unwrap();
+    let want = unhex(v["want"].as_str().unwrap());
+    let _ = catch(|| rbpf::assembler::assemble(refused));
+    match catch(|| rbpf::assembler::assemble(text)) {
+        Ok(Ok(got)) if got == want => vec![],
+        other => vec![format!("asm/after-refused-source/bytes-mismatch: after assemble({refused:?}) was refused, assemble({text:?}) = {:?} want {}", other.map(|x| x.map(|b| hex(&b))), hex(&want))],
     }
 }
 
